@@ -62,6 +62,11 @@ var props = map[string]propSpec{
 		Rule: "rapid draws (a) int64/uint64 values incl. all type bounds for the four exact constructors, (b) big.Int up to 21k bits (random bits <=128/129..256/>256, c*10^k with tie patterns through the 1e18-step reduction, the overflow threshold, powers of two) for FromInt, (c) Decimals near every type bound at scales 0..15, fractions just below an integer, values in (-1,1), huge exponents for Int (nil and pre-loaded receiver) and Int64/Int32/Uint64/Uint32 against exact truncation, (d) Decimals for Rat and the FromRat(Rat(d)) round trip, (e) rationals from digit strings <=34 digits (correct rounding) and from the big.Int generator (2e-33 relative tolerance, neighbours at the edges of the range). Non-trivial = case near a type bound / beyond 2^128 / non-integer / coefficient beyond 113 bits / any rational; distinct = distinct arguments.",
 		Assumptions: commonAssumptions,
 	},
+	"C09": {
+		QuickShards: 8, ThoroughShards: 16,
+		Rule: "rapid draws float64/float32 bit patterns (uniform words, subnormals, 2^k and 2^k(1+2^-52) for every binary exponent, small mantissas, decimal-looking values, top binades, specials) for FromFloat64/32 against the exact binary value rounded nearest-even, plus the Float64/Float32 round trip; Decimals dense in the float range, built next to exact float values and to midpoints between adjacent floats (approached from both sides to the 34th digit), exactly representable values and range edges, for Float64/Float32 against the two neighbouring floats computed with big.Rat; Float at precisions 1..400 with nil and pre-loaded receivers (2^(1-prec) bound, correct rounding from 114 bits); FromFloat of big.Floats with mantissas up to 600 bits and binary exponents up to +-21500 (2e-33 relative, neighbours at the range edges). A sweep checks FromFloat32(f).Float32()==f on a strided sample (quick) or all 2^32 patterns (thorough, sub-check marked exhaustive). Non-trivial = inexact conversion; distinct = distinct argument bits.",
+		Assumptions: append([]string{"math/big.Rat.Float64/Float32 return the nearest float and an exactness flag (used only to find the two neighbouring floats)"}, commonAssumptions...),
+	},
 	"C01": {
 		QuickShards: 8, ThoroughShards: 16,
 		Rule: "rapid draws operand pairs (independent; exponent gap -45..45; tie/near-tie constructor at the 34/35-digit boundary; near-cancellation across cohorts; swallowed operand up to gap 12287; zeros; overflow edge) and add/sub; every pair is evaluated under all 6 modes and under all 6 DefaultRoundingMode values against the exact integer sum rounded by ref.RoundX. Non-trivial = the exact sum is not representable (rounding decides) or the operands cancel exactly; distinct = distinct (x bits, y bits, op).",
